@@ -1,0 +1,17 @@
+// Copyright 2025 The Go MCP SDK Authors. All rights reserved.
+// Use of this source code is governed by an MIT-style
+// license that can be found in the LICENSE file.
+
+//go:build verif
+
+// Contracts for the verification framework in /verif (comment-only; see /verif/DESIGN.md).
+// This file declares nothing and is compiled only with -tags verif.
+
+package util
+
+// IsLoopback parses a host[:port] string (library parsing only): no heap effect. Its result is treated as an
+// uninterpreted predicate of the address.
+//@ fun loopbackAddr(addr string) bool
+//@ func IsLoopback
+//@   trusted
+//@   ensures result == loopbackAddr(addr)
